@@ -5,7 +5,7 @@
 # imports, 3. demo fails with the patch, 4. the given existing tests pass
 # with the patch.  Everything runs in a private network namespace.
 set -u
-D="$1"; NAME="$2"; TESTS="${3:-tests/runtime tests/compiler/test_compiler.py}"
+D="$1"; NAME="$2"; TESTS="${3:-tests/compiler/test_compiler.py tests/runtime}"
 WT=/tmp/cf_$NAME
 OUT="$D/confirm.json"
 git -C /repo worktree remove --force "$WT" >/dev/null 2>&1
